@@ -1,7 +1,37 @@
 import Driver.Proto
 namespace Driver
 
-/-- C01 correspondence (stub) -/
-def checkC01 (l : Line) : Verdict := .bad s!"stream {l.stream} not implemented"
+/-- how `Core::run_code_block` interprets a status byte -/
+def statusClass (st : Nat) : Nat :=
+  if st == 1 then 1 else if st == 2 then 2 else if st == 3 then 3 else if st == 4 || st == 5 then 4 else 0
+
+/-- an outcome `regs;status;writes;small;probes;rb` with the status reduced to its class -/
+def normOutcome (s : String) : List String :=
+  match s.splitOn ";" with
+  | [r, st, w, sm, pv, rb] => [r, toString (statusClass (parseNat st)), w, sm, pv, rb]
+  | other => other
+
+/-- did the block, while located in the switchable ROM bank, write to the cartridge registers? -/
+def remaps (at_ : Nat) (writes : String) : Bool :=
+  at_ ≥ 0x4000 && (writes.splitOn "+").any fun w =>
+    match w.splitOn ":" with
+    | [a, _] => a != "" && parseNat a < 0x8000
+    | _ => false
+
+/-- C01 / C02 native differential: translated code vs interpreter on the same block and state.
+A difference is a violation witness (`engine_diff`), reported as IMPL≠SPEC: the interpreter is the reference. -/
+def checkC01 (l : Line) : Verdict :=
+  let i := normOutcome (l.outS "i")
+  let j := normOutcome (l.outS "j")
+  let at_ := l.inN "at"
+  let names := ["registers/cycles", "status", "bus writes (order, values)", "OAM/IO/HRAM/IE image", "probed memory", "ROM bank"]
+  if l.outS "i" == "died" then .ok false      -- the reference itself aborts (undefined opcode / non-executable area): excluded
+  else if i.length == 6 && remaps at_ (i.getD 2 "") then .ok false     -- recorded separately (C03: mid-block bank switch from banked code)
+  else if l.outS "jd" != "0" then .specDiff s!"translated block did not return ({l.outS "jd"}); interpreter: {l.outS "i"}"
+  else if i.length != 6 || j.length != 6 then .bad "malformed outcome"
+  else
+    match (List.range 6).find? (fun k => i.getD k "" != j.getD k "") with
+    | some k => .specDiff s!"{names.getD k ""}: interpreter={i.getD k ""} translated={j.getD k ""}"
+    | none => .ok true
 
 end Driver
